@@ -32,8 +32,42 @@ def words_of(tokens):
             out.append(str(t[1]))
         elif t[0] in TOKEN_TEXT:
             out.append(TOKEN_TEXT[t[0]])
+        elif t[0] == "FStringLit":
+            text = "f'"
+            for kind, body in t[1]:
+                if kind == "lit":
+                    text += body
+                else:
+                    inner = words_of([tuple(x) for x in body])
+                    if inner is None:
+                        return None
+                    text += "{" + " ".join(inner) + "}"
+            out.append(text + "'")
         else:
             return None
+    return out
+
+
+def ref_tokens(tokens):
+    """scenario tokens -> the reference parser's (kind, payload) list"""
+    out = []
+    for t in tokens:
+        if t[0] == "FStringLit":
+            out.append(("FStringLit", [(k, b if k == "lit" else ref_tokens([tuple(x) for x in b])) for k, b in t[1]]))
+        else:
+            out.append((t[0], t[1] if len(t) > 1 else None))
+    return out
+
+
+def all_idents(tokens):
+    out = set()
+    for t in tokens:
+        if t[0] == "Ident":
+            out.add(t[1])
+        elif t[0] == "FStringLit":
+            for k, b in t[1]:
+                if k == "expr":
+                    out |= all_idents([tuple(x) for x in b])
     return out
 
 
@@ -150,6 +184,8 @@ def walk_primary(node, names, lits):
         oi = p["ObjectInit"]
         inits = [(walk(i["node"]["key"], "Expr", names, lits), walk(i["node"]["value"], "Expr", names, lits), span(i)) for i in oi["node"]["inits"]]
         out = N(k="map", inits=[(a, b) for a, b, _ in inits], init_spans=[s for _, _, s in inits], spans=[span(oi)])
+    elif isinstance(p, dict) and "Literal" in p and isinstance(p["Literal"], dict) and "FStringList" in p["Literal"]:
+        out = N(k="fstr", segs=[("lit" if "Lit" in sg else "expr", None) for sg in p["Literal"]["FStringList"]])
     elif isinstance(p, dict) and "Literal" in p:
         # identify the literal by its position (the columns of the token it was read from)
         out = N(k="lit", tok=lits.get(sp), what=str(p["Literal"])[:30])
@@ -335,7 +371,7 @@ def replay_grammar(run, exe, failures):
             continue
         seen.add(src)
         # reference parse (identifiers are their own names here)
-        rtoks = [(k, (p[0] if p else None)) for k, *p in tokens]
+        rtoks = ref_tokens(tokens)
         p = RefParser(rtoks)
         try:
             want, used = p.expr(), None
@@ -344,7 +380,7 @@ def replay_grammar(run, exe, failures):
                 want = None         # trailing tokens: a whole program must be one expression
         except Reject:
             want = None
-        idents = sorted({t[1] for t in tokens if t[0] == "Ident" and t[1] != "_"})
+        idents = sorted(all_idents(tokens) - {"_"})
         rec = {"label": f["label"], "source": src}
         tried.append(rec)
         bad = check_one(run, exe, src, tokens, rtoks, cols, want, idents, rec, words)
